@@ -674,9 +674,14 @@ def preNearRv (near s : List α) (distance : α) : List α :=
   let dist := Num.sqrt (rvDistSq near s (Num.ofNat 0))
   if distance < dist then rvInterp (distance / dist) near s else s
 
-/-- `sampleGaussian(state, mean, stdDev)` AS CODED: `sampleUniformNear(state, mean, rng_.gaussian(0.0, stdDev))` — the
-"distance" is a SIGNED Gaussian draw (finding F166) -/
-def preGaussRv (mean s : List α) (sd g : α) : List α := preNearRv mean s (gaussian (Num.ofNat 0) sd g)
+/-- `sampleGaussian(state, mean, stdDev)` as fixed by cf0cbdaed (finding F166):
+`sampleUniformNear(state, mean, std::abs(rng_.gaussian(0.0, stdDev)))` -/
+def preGaussRv (mean s : List α) (sd g : α) : List α :=
+  preNearRv mean s (Num.abs (gaussian (Num.ofNat 0) sd g))
+
+/-- the code BEFORE the fix: the "distance" was the SIGNED Gaussian draw (kept for the witness
+`precomputed_gaussian_old_negative_fails`) -/
+def preGaussRvOld (mean s : List α) (sd g : α) : List α := preNearRv mean s (gaussian (Num.ofNat 0) sd g)
 
 /-! ### RNG::halfNormalReal / halfNormalInt (RandomNumbers.cpp) -/
 
@@ -689,11 +694,12 @@ def halfNormalReal (rmin rmax focus g : α) : α :=
   let r := if Num.ofNat 0 ≤ v then v + rmin else rmin
   if rmax < r then rmax else r
 
-/-- `r = (int)floor(halfNormalReal(r_min, r_max + 1.0, focus)); return (r > r_max) ? r_max : r;` — cast BEFORE the clamp as
-coded (finding F167 for `r_max = INT_MAX`; with the model's unbounded `Int` the order does not matter) -/
+/-- as fixed by b4cb23619 (findings F167 / F204): `const double r = floor(halfNormalReal(r_min, r_max + 1.0, focus));
+return (r > (double)r_max) ? r_max : (int)r;` — the clamp in `double`, then the cast (before the fix the cast came first:
+undefined for `r_max = INT_MAX`; with the model's unbounded `Int` both forms give the same value) -/
 def halfNormalInt (rmin rmax : Int) (focus g : α) : Int :=
-  let r := Num.toInt (Num.floor (halfNormalReal (Num.ofInt rmin) (Num.ofInt rmax + Num.ofNat 1) focus g))
-  if rmax < r then rmax else r
+  let r := Num.floor (halfNormalReal (Num.ofInt rmin) (Num.ofInt rmax + Num.ofNat 1) focus g)
+  if Num.ofInt rmax < r then rmax else Num.toInt r
 
 /-! ### valid-state samplers over an oracle (no arithmetic on states) -/
 section Valid
